@@ -542,6 +542,8 @@ class Machine:
                 return inner[2]
             if is_ctor(inner) and inner[1] in ("Err",) or inner == "None":
                 raise _Return(inner)
+            if isinstance(inner, Sym) and str(inner).startswith("residual of "):
+                raise _Return(inner)       # what an inner `?` handed back is a failure: the outer `?` hands it on, it never succeeds
             if self.choose(2) == 0:
                 return Sym("%s?" % short(inner))
             raise _Return(Sym("residual of %s" % short(inner)))
